@@ -8,7 +8,7 @@ OPTS=""
 while [ "${1#--}" != "$1" ]; do OPTS="$OPTS $1 $2"; shift 2; done
 mkdir -p "$SV"
 rsync -a --delete --exclude target /repo/ "$SV/repo/"
-rsync -a --delete --exclude work --exclude 'seeded/*/result.json' /verif/ "$SV/verif/"
+rsync -a --delete --exclude work /verif/ "$SV/verif/"
 git -C "$SV/repo" checkout -q -- . 2>/dev/null || true
 IDS="$*"
 unshare -m sh -c "mount --bind $SV/repo /repo && mount --bind $SV/verif /verif && cd /verif && for s in $IDS; do python3 tools/seeded.py run \$s $OPTS 2>&1 | tail -1; done"
